@@ -3,7 +3,6 @@ package vsched
 import (
 	"fmt"
 	"reflect"
-	"sort"
 	"time"
 )
 
@@ -17,6 +16,7 @@ type chanState struct {
 	timer  *vtimer // set when this is a timer/ticker channel
 }
 
+//go:norace
 func chanKey(ch any) uintptr {
 	v := reflect.ValueOf(ch)
 	if v.Kind() != reflect.Chan {
@@ -25,6 +25,7 @@ func chanKey(ch any) uintptr {
 	return v.Pointer()
 }
 
+//go:norace
 func (s *sched) chanOf(ch any) *chanState {
 	k := chanKey(ch)
 	if k == 0 {
@@ -44,6 +45,8 @@ func (s *sched) chanOf(ch any) *chanState {
 // sender is enabled iff a receiver is parked; granting the send deposits the
 // value in a one-slot hand-over buffer which makes the receiver enabled, and
 // nobody else can take or add while it is there.
+//
+//go:norace
 func (s *sched) canSend(cs *chanState, self *thread) bool {
 	if cs == nil {
 		return false
@@ -57,6 +60,7 @@ func (s *sched) canSend(cs *chanState, self *thread) bool {
 	return s.receiverParked(cs, self)
 }
 
+//go:norace
 func (s *sched) receiverParked(cs *chanState, self *thread) bool {
 	for _, t := range s.threads {
 		if t == self || t.done || t.pending == nil || t.pending.resolved {
@@ -81,6 +85,8 @@ func (s *sched) receiverParked(cs *chanState, self *thread) bool {
 
 // completeReceiver resolves the pending operation of the first thread parked in a
 // receive on cs: the value is delivered and the thread only needs to be scheduled.
+//
+//go:norace
 func (s *sched) completeReceiver(cs *chanState, self *thread, val any) {
 	for _, t := range s.threads {
 		if t == self || t.done || t.pending == nil || t.pending.resolved {
@@ -103,6 +109,7 @@ func (s *sched) completeReceiver(cs *chanState, self *thread, val any) {
 	panic("vsched: unbuffered send granted without a parked receiver")
 }
 
+//go:norace
 func canRecv(cs *chanState) bool {
 	return cs != nil && (len(cs.buf) > 0 || cs.closed)
 }
@@ -120,6 +127,7 @@ type SelCase struct {
 	desc string
 }
 
+//go:norace
 func (c *SelCase) ready() bool {
 	if c.send {
 		return c.s.canSend(c.cs, c.self)
@@ -127,6 +135,7 @@ func (c *SelCase) ready() bool {
 	return canRecv(c.cs)
 }
 
+//go:norace
 func (c *SelCase) fire() {
 	if c.send {
 		if c.cs.closed {
@@ -148,9 +157,12 @@ func (c *SelCase) fire() {
 	c.got, c.ok = nil, false // closed
 }
 
+//go:norace
 func describeChan(ch any) string { return fmt.Sprintf("%T@%x", ch, chanKey(ch)&0xffff) }
 
 // Send is the rewritten `ch <- v`.
+//
+//go:norace
 func Send[T any](ch chan<- T, v T) {
 	if cur == nil {
 		panic("vsched: channel send outside a controlled execution")
@@ -162,14 +174,14 @@ func Send[T any](ch chan<- T, v T) {
 	cs := s.chanOf(ch)
 	c := SelCase{s: s, cs: cs, send: true, val: v, self: s.cur}
 	op := &Op{kind: opSend, desc: "send " + describeChan(ch), cases: []SelCase{c}}
-	op.enabled = func() bool { return op.cases[0].ready() }
-	op.apply = func() { op.cases[0].fire() }
+	raceReleaseChan(cs)
 	s.do(op)
 	if cs != nil && cs.closed {
 		panic("send on closed channel")
 	}
 }
 
+//go:norace
 func recvOp[T any](ch <-chan T) (T, bool) {
 	if cur == nil {
 		panic("vsched: channel receive outside a controlled execution")
@@ -180,9 +192,8 @@ func recvOp[T any](ch <-chan T) (T, bool) {
 	}
 	cs := s.chanOf(ch)
 	op := &Op{kind: opRecv, desc: "recv " + describeChan(ch), cases: []SelCase{{s: s, cs: cs, self: s.cur}}}
-	op.enabled = func() bool { return op.cases[0].ready() }
-	op.apply = func() { op.cases[0].fire() }
 	s.do(op)
+	raceAcquireChan(cs)
 	var zero T
 	if !op.cases[0].ok {
 		return zero, false
@@ -198,23 +209,34 @@ func recvOp[T any](ch <-chan T) (T, bool) {
 type Chan[T any] struct{ ch chan<- T }
 
 // To starts a send: To(ch).Send(v) is the rewritten `ch <- v`.
+//
+//go:norace
 func To[T any](ch chan<- T) Chan[T] { return Chan[T]{ch} }
 
+//go:norace
 func (c Chan[T]) Send(v T) { Send(c.ch, v) }
 
 // Case builds the send clause of a select.
+//
+//go:norace
 func (c Chan[T]) Case(v T) *SendCase[T] { return NewSend(c.ch, v) }
 
 // Recv is the rewritten `<-ch`.
+//
+//go:norace
 func Recv[T any](ch <-chan T) T {
 	v, _ := recvOp(ch)
 	return v
 }
 
 // Recv2 is the rewritten `v, ok := <-ch`.
+//
+//go:norace
 func Recv2[T any](ch <-chan T) (T, bool) { return recvOp(ch) }
 
 // Close is the rewritten close(ch).
+//
+//go:norace
 func Close[T any](ch chan<- T) {
 	if cur == nil {
 		panic("vsched: close outside a controlled execution")
@@ -224,7 +246,8 @@ func Close[T any](ch chan<- T) {
 	}
 	s := cur
 	cs := s.chanOf(ch)
-	s.do(&Op{kind: opClose, desc: "close " + describeChan(ch), enabled: func() bool { return true }})
+	raceReleaseChan(cs)
+	s.do(&Op{kind: opClose, desc: "close " + describeChan(ch)})
 	if cs.closed {
 		panic("close of closed channel")
 	}
@@ -241,20 +264,26 @@ type RecvCase[T any] struct {
 	OK bool
 }
 
+//go:norace
 func (r *RecvCase[T]) sel() *SelCase { return &r.c }
 
 // SendCase is a send clause.
 type SendCase[T any] struct{ c SelCase }
 
+//go:norace
 func (r *SendCase[T]) sel() *SelCase { return &r.c }
 
 // NewRecv builds a receive clause.
+//
+//go:norace
 func NewRecv[T any](ch <-chan T) *RecvCase[T] {
 	s := must()
 	return &RecvCase[T]{c: SelCase{s: s, cs: s.chanOf(ch), self: s.cur, desc: describeChan(ch)}}
 }
 
 // NewSend builds a send clause.
+//
+//go:norace
 func NewSend[T any](ch chan<- T, v T) *SendCase[T] {
 	s := must()
 	return &SendCase[T]{c: SelCase{s: s, cs: s.chanOf(ch), send: true, val: v, self: s.cur, desc: describeChan(ch)}}
@@ -262,6 +291,7 @@ func NewSend[T any](ch chan<- T, v T) *SendCase[T] {
 
 type recvSetter interface{ set() }
 
+//go:norace
 func (r *RecvCase[T]) set() {
 	r.OK = r.c.ok
 	if r.c.got != nil {
@@ -271,6 +301,8 @@ func (r *RecvCase[T]) set() {
 
 // Select is the rewritten select statement: it returns the index of the clause
 // that fired, or -1 for the default clause.
+//
+//go:norace
 func Select(hasDefault bool, cases ...Case) int {
 	s := must()
 	if s.aborting {
@@ -280,9 +312,15 @@ func Select(hasDefault bool, cases ...Case) int {
 	for _, c := range cases {
 		op.cases = append(op.cases, *c.sel())
 		op.desc += " " + c.sel().desc
+		if c.sel().send {
+			raceReleaseChan(c.sel().cs)
+		}
 	}
 	s.do(op)
 	i := op.selected
+	if i >= 0 && !op.cases[i].send {
+		raceAcquireChan(op.cases[i].cs)
+	}
 	if i >= 0 {
 		*cases[i].sel() = op.cases[i]
 		if r, ok := cases[i].(recvSetter); ok {
@@ -305,11 +343,14 @@ type vtimer struct {
 	active   bool
 	ch       chan time.Time
 	cs       *chanState
-	fn       func() // AfterFunc
+	afterFn  func() // AfterFunc
 	sleeper  bool
+	fired    bool
 }
 
 // Now returns the virtual clock (the real clock outside a controlled execution).
+//
+//go:norace
 func Now() time.Time {
 	if cur == nil {
 		return time.Now()
@@ -321,6 +362,8 @@ func Now() time.Time {
 type Timer struct{ t *vtimer }
 
 // NewTimer registers a timer on the virtual clock and returns it with its channel.
+//
+//go:norace
 func NewTimer(d time.Duration, period time.Duration) (Timer, <-chan time.Time) {
 	s := must()
 	ch := make(chan time.Time, 1)
@@ -333,6 +376,8 @@ func NewTimer(d time.Duration, period time.Duration) (Timer, <-chan time.Time) {
 }
 
 // Stop deactivates the timer; reports whether it was active.
+//
+//go:norace
 func (t Timer) Stop() bool {
 	was := t.t.active
 	t.t.active = false
@@ -340,6 +385,8 @@ func (t Timer) Stop() bool {
 }
 
 // Reset re-arms the timer.
+//
+//go:norace
 func (t Timer) Reset(d time.Duration) bool {
 	s := must()
 	was := t.t.active
@@ -360,19 +407,20 @@ func (t Timer) Reset(d time.Duration) bool {
 }
 
 // Sleep parks the thread until the virtual clock has advanced by d.
+//
+//go:norace
 func Sleep(d time.Duration) {
 	s := must()
 	s.timerSeq++
 	t := &vtimer{seq: s.timerSeq, deadline: s.now.Add(d), active: true, sleeper: true}
 	s.timers = append(s.timers, t)
-	fired := false
-	t.fn = func() { fired = true }
-	op := &Op{kind: opSleep, desc: fmt.Sprintf("Sleep(%v)", d), enabled: func() bool { return fired }}
+	op := &Op{kind: opSleep, desc: fmt.Sprintf("Sleep(%v)", d), timer: t}
 	s.do(op)
 }
 
+//go:norace
 func (s *sched) awaited(t *vtimer) bool {
-	if t.sleeper || t.fn != nil {
+	if t.sleeper || t.afterFn != nil {
 		return true
 	}
 	for _, th := range s.threads {
@@ -392,6 +440,15 @@ func (s *sched) awaited(t *vtimer) bool {
 	return false
 }
 
+//go:norace
+func timerLess(a, b *vtimer) bool {
+	if !a.deadline.Equal(b.deadline) {
+		return a.deadline.Before(b.deadline)
+	}
+	return a.seq < b.seq
+}
+
+//go:norace
 func (s *sched) activeTimers() []*vtimer {
 	var ts []*vtimer
 	live := s.timers[:0]
@@ -402,17 +459,18 @@ func (s *sched) activeTimers() []*vtimer {
 		}
 	}
 	s.timers = live
-	sort.Slice(ts, func(i, j int) bool {
-		if !ts[i].deadline.Equal(ts[j].deadline) {
-			return ts[i].deadline.Before(ts[j].deadline)
+	for i := 1; i < len(ts); i++ {
+		for j := i; j > 0 && timerLess(ts[j], ts[j-1]); j-- {
+			ts[j], ts[j-1] = ts[j-1], ts[j]
 		}
-		return ts[i].seq < ts[j].seq
-	})
+	}
 	return ts
 }
 
 // nextAwaitedTimer returns the earliest deadline some thread is waiting for
 // (within the AutoTimers horizon).
+//
+//go:norace
 func (s *sched) nextAwaitedTimer() (time.Time, bool) {
 	limit := s.start.Add(s.cfg.Horizon)
 	for _, t := range s.activeTimers() {
@@ -426,6 +484,7 @@ func (s *sched) nextAwaitedTimer() (time.Time, bool) {
 	return time.Time{}, false
 }
 
+//go:norace
 func (s *sched) fire(t *vtimer) {
 	if t.deadline.After(s.now) {
 		s.now = t.deadline
@@ -435,8 +494,12 @@ func (s *sched) fire(t *vtimer) {
 	} else {
 		t.active = false
 	}
-	if t.fn != nil {
-		t.fn()
+	if t.sleeper {
+		t.fired = true
+		return
+	}
+	if t.afterFn != nil {
+		s.spawn("afterfunc", t.afterFn)
 		return
 	}
 	if len(t.cs.buf) == 0 {
@@ -446,6 +509,8 @@ func (s *sched) fire(t *vtimer) {
 
 // fireNext advances the clock to the next awaited deadline, silently firing
 // every timer that is due by then.
+//
+//go:norace
 func (s *sched) fireNext() {
 	target, ok := s.nextAwaitedTimer()
 	if !ok {
@@ -473,8 +538,11 @@ func (s *sched) fireNext() {
 // ticker) are not stepped tick by tick when the harness advances the clock: a
 // timer may always fire late, so "at most once per step of the coarse timers"
 // is a legal behaviour and keeps long clock steps cheap.
+//
+//go:norace
 func (t *vtimer) fine() bool { return t.period > 0 && t.period < 50*time.Millisecond }
 
+//go:norace
 func (s *sched) fireUpTo(target time.Time) {
 	for {
 		fired := false
@@ -506,6 +574,8 @@ func (s *sched) fireUpTo(target time.Time) {
 // Advance is called by the harness main thread: it moves the virtual clock
 // forward by d in steps — each step goes to the next pending (coarse) timer
 // deadline, fires what is due and lets every other thread run to quiescence.
+//
+//go:norace
 func Advance(d time.Duration) {
 	s := must()
 	target := s.now.Add(d)
@@ -528,11 +598,13 @@ func Advance(d time.Duration) {
 }
 
 // AfterFunc registers fn to run (as a managed thread) when the timer fires.
+//
+//go:norace
 func AfterFunc(d time.Duration, fn func()) Timer {
 	s := must()
 	s.timerSeq++
 	t := &vtimer{seq: s.timerSeq, deadline: s.now.Add(d), active: true}
-	t.fn = func() { GoNamed("afterfunc", fn) }
+	t.afterFn = fn
 	s.timers = append(s.timers, t)
 	return Timer{t}
 }
